@@ -97,6 +97,9 @@ DESC2 = {
  'C17_A': ('rolling/directory.rs Directory::open', 'dir_entry.path().is_file() (follows symlinks) (rediscovery)', 'a symlink named like a WAL file'),
  'C17_B': ('rolling/directory.rs roll-over + open_or_create_file helper', 'roll-over unified through a helper opening with create(true): exclusive creation lost', 'a foreign (dangling) symlink named exactly as the next WAL file'),
  'C17_C': ('rolling/directory.rs filename_to_position', 'strip_prefix + parse without the ASCII digit test (rediscovery)', 'a foreign file named wal-+<19 digits>'),
+ 'C18_A': ('recordlog/reader.rs go_next', 'record_buffer.clear() hoisted to the top of go_next (rediscovery)', 'DoNothing policy, torn multi-frame append on queue a, recovery, append on b, restart'),
+ 'C18_B': ('multi_record_log.rs delete_queue', 'run_gc_if_necessary inlined as directory().gc(): the position pass is lost', 'deleting the queue that alone pins the oldest files while other queues are empty, restart'),
+ 'C18_C': ('multi_record_log.rs run_gc_if_necessary', 'guard clone taken after the position pass (rediscovery)', 'all queues empty, position records straddling a file boundary, restart'),
 }
 
 ROUND = os.environ.get('SEED_ROUND', '1')
